@@ -164,7 +164,7 @@ class DesignElab(Elaboratable):
                     k = next(site_k)
                     s = info.sites[k]
                     meth = self.methods[s.callee]
-                    en = self.inp[s.en_in] if s.en == "in" else C(1)
+                    en = self.inp[s.en_in] if s.en == "in" else (C(0) if s.en == "0" else C(1))   # "0": constant-false enable
                     kw = {}
                     if len(meth.data_in.as_value()):
                         kw["a"] = self.inp[s.arg_in] if s.arg == "in" else C(int(s.arg or 0), 1)
@@ -597,13 +597,13 @@ class Oracle:
                 r = False
                 for s in info.sites:
                     if s.target == n:
-                        a = runs[s.body] and self.pathcond(I, O, s.path) and bool(I[s.en_in] if s.en == "in" else 1)
+                        a = runs[s.body] and self.pathcond(I, O, s.path) and bool(I[s.en_in] if s.en == "in" else s.en != "0")
                         active[s.id] = a
                         r = r or a
                 runs[n] = r
         for s in info.sites:
             if s.id not in active:
-                active[s.id] = runs[s.body] and self.pathcond(I, O, s.path) and bool(I[s.en_in] if s.en == "in" else 1)
+                active[s.id] = runs[s.body] and self.pathcond(I, O, s.path) and bool(I[s.en_in] if s.en == "in" else s.en != "0")
         # ---- readiness of every body: own ready input and the conditions around its definition
         ready = {}
         for n, b in B.items():
@@ -703,7 +703,7 @@ class Oracle:
                 for c in st.chains[t]:
                     y = c[-1].target
                     if B[y].val:
-                        on = all(self.pathcond(I, O, s.path) and bool(I[s.en_in] if s.en == "in" else 1) for s in c)
+                        on = all(self.pathcond(I, O, s.path) and bool(I[s.en_in] if s.en == "in" else s.en != "0") for s in c)
                         if on:
                             s = c[-1]
                             arg = int(I[s.arg_in]) if s.arg == "in" else int(s.arg or 0)
